@@ -460,3 +460,41 @@ Proof.
   - intros (d & Hin & -> & Hne). exists (rid, Some d). split; [exact Hin|]. cbn [fst snd].
     destruct (positions_of t d 0%Z); [congruence | left; reflexivity].
 Qed.
+
+(* ---------------------------------------------------------------- WAND pruning safety (set level) *)
+From LanceV Require Import Index.Model_TopK Index.Proofs_TopK.
+From Coq Require Import Permutation.
+
+Section WandSafe.
+  Context {A : Type}.
+  Variable ord : key -> key -> bool.           (* "at least as good as": smaller key = higher score *)
+  Hypothesis ord_total : forall x y, ord x y = true \/ ord y x = true.
+  Hypothesis ord_trans : forall x y z, ord x y = true -> ord y z = true -> ord x z = true.
+  Variable kf : A -> key.
+
+  Lemma wand_safe : forall k l kept dropped theta s,
+    Permutation l (kept ++ dropped) ->
+    (forall y, In y dropped -> ord theta (kf y) = true) ->
+    (k <= length (filter (fun z => ord (kf z) theta) kept))%nat ->
+    is_topk ord kf k kept s -> is_topk ord kf k l s.
+  Proof.
+    intros k l kept dropped theta s PL Hdrop Hgood (r2 & HP & HL & HC).
+    pose proof (filter_length_le (fun z => ord (kf z) theta) kept) as Gle.
+    assert (Lk : length kept = (length s + length r2)%nat) by (rewrite (Permutation_length HP), app_length; reflexivity).
+    assert (Ll : length l = (length kept + length dropped)%nat) by (rewrite (Permutation_length PL), app_length; reflexivity).
+    exists (r2 ++ dropped). split; [|split].
+    - rewrite PL, HP, <- app_assoc. reflexivity.
+    - lia.
+    - intros x y Hx Hy. apply in_app_or in Hy. destruct Hy as [Hy|Hy]; [apply HC; assumption|].
+      destruct (ord (kf x) (kf y)) eqn:E; [reflexivity|exfalso].
+      set (g := fun z => ord (kf z) theta).
+      assert (C2 : filter g r2 = []).
+      { apply filter_none. intros z Hz. unfold g. destruct (ord (kf z) theta) eqn:Ez; [|reflexivity].
+        rewrite (ord_trans _ _ _ (HC x z Hx Hz) (ord_trans _ _ _ Ez (Hdrop y Hy))) in E. discriminate. }
+      assert (C3 : (length (filter g s) < length s)%nat).
+      { apply (filter_length_lt g s x Hx). unfold g. destruct (ord (kf x) theta) eqn:Ex; [|reflexivity].
+        rewrite (ord_trans _ _ _ Ex (Hdrop y Hy)) in E. discriminate. }
+      pose proof (filter_perm_length g _ _ HP) as FP. rewrite filter_app, app_length, C2 in FP. cbn [length] in FP.
+      fold g in Hgood. lia.
+  Qed.
+End WandSafe.
